@@ -933,13 +933,16 @@ def unlisted(ctx, key, what, rp):
         ctx.notes.append("unlisted-finding:%s: %s" % (key, what))
 
 
-def oracle_fit(X, grids, order):
+def oracle_fit(X, grids, order, override=None):
     """pure-Python fit_discrete_mc: per-dimension nearest grid index (ties to the lower index), product index in the
     given order, brute-force counting. X, grids: Fractions. Returns (idx, state indices, state points, counts, totals)"""
     idx = []
-    for x in X:
+    for t, x in enumerate(X):
         ind = []
-        for g, xi in zip(grids, x):
+        for d, (g, xi) in enumerate(zip(grids, x)):
+            if override is not None and override.get((t, d)) is not None:
+                ind.append(override[(t, d)])
+                continue
             dist = [abs(xi - v) for v in g]
             ind.append(dist.index(min(dist)))
         k, mul = 0, 1
@@ -1140,13 +1143,177 @@ def history_cases(ctx):
 
 
 
+# ----------------------------------------------------------------------------
+# discrete_var: the glue around fit_discrete_mc (default sizes, linspace grids, order)
+
+
+class _FixedRV:
+    """`rv` argument of discrete_var: a frozen 'distribution' whose draws are prescribed"""
+    def __init__(self, draws):
+        self.draws = draws
+
+    def rvs(self, size, random_state=None):
+        return self.draws[:size]
+
+
+def dvar_cases(ctx, cases):
+    import quantecon.markov.approximation as ap
+    from quantecon._matrix_eqn import solve_discrete_lyapunov
+    r = ctx.rng
+    rec = {}
+    orig = ap.simulate_linear_model
+
+    def recording(*a, **k):
+        out = orig(*a, **k)
+        rec["X"] = np.array(out, copy=True)
+        return out
+
+    ap.simulate_linear_model = recording
+    try:
+        for it in range(ctx.n(60, 500)):
+            m = r.choice([1, 1, 2, 2, 3])
+            rr = r.choice([m, m, 1, m + 1])
+            A = np.diag([r.uniform(-0.9, 0.9) for _ in range(m)])
+            if m >= 2 and r.random() < 0.5:
+                A[0, 1] = r.uniform(-0.2, 0.2)
+            C = np.array([[r.uniform(-1, 1) for _ in range(rr)] for _ in range(m)])
+            for i in range(m):
+                C[i, i % rr] += 1.0          # keep every coordinate non-degenerate
+            T = r.choice([1, 2, 3, 5, 10, 30, 80, 200])
+            order = r.choice("CF")
+            kw = {"sim_length": T, "order": order}
+            malformed = None
+            gs_kind = r.choice(["none", "list", "array", "tuple", "ones"])
+            if gs_kind == "none":
+                sizes, sizes_tok = None, "none"
+                if r.random() < 0.5:
+                    kw["grid_sizes"] = None
+            else:
+                sizes = [1 if gs_kind == "ones" else r.choice([1, 2, 3, 4, 7, 10]) for _ in range(m)]
+                if r.random() < 0.08 and m >= 2:
+                    sizes = sizes[:-1]          # malformed: too few grid sizes -> IndexError
+                    malformed = "IndexError"
+                elif r.random() < 0.08:
+                    sizes[r.randrange(m)] = 0   # malformed: an empty grid -> IndexError
+                    malformed = "IndexError"
+                elif r.random() < 0.1:
+                    sizes = sizes + [5]         # surplus entries are ignored
+                    ctx.count("dvar:surplus-grid-sizes")
+                kw["grid_sizes"] = {"list": sizes, "array": np.array(sizes), "tuple": tuple(sizes), "ones": sizes}[gs_kind]
+                sizes_tok = ints(sizes)
+            std = r.choice([None, 1.0, 2.5, float(np.sqrt(10)), 0.5])
+            if std is not None:
+                kw["std_devs"] = std
+            std_eff = float(np.sqrt(10)) if std is None else float(std)
+            if r.random() < 0.5:
+                draws = np.array([[r.gauss(0, 1) for _ in range(rr)] for _ in range(max(T - 1, 0))]).reshape(max(T - 1, 0), rr)
+                kw["rv"] = _FixedRV(draws)
+                ctx.count("dvar:rv-given")
+            else:
+                kw["random_state"] = r.randrange(2 ** 31)
+                ctx.count("dvar:random_state-seed")
+            rp = {"op": "discrete_var", "A": A.tolist(), "C": C.tolist(), "sim_length": T, "order": order,
+                  "grid_sizes": None if sizes is None else list(sizes), "std_devs": std,
+                  "rv_draws": kw["rv"].draws.tolist() if "rv" in kw else None, "random_state": kw.get("random_state")}
+            rec.clear()
+            try:
+                with warnings.catch_warnings():
+                    warnings.simplefilter("ignore")
+                    mc = ap.discrete_var(A, C, **kw)
+                P, sv = np.asarray(mc.P), np.asarray(mc.state_values)
+                impl = "states=%s P=%s" % (fxm(sv.reshape(len(sv), -1)), fxm(P))
+                outcome = "ok"
+            except ValueError:
+                impl, outcome = "ERR:ValueError", "ValueError"
+            except IndexError:
+                impl, outcome = "ERR:IndexError", "IndexError"
+            except Exception as e:
+                ctx.spec_fail("discrete_var_raises", "%s: %s" % (type(e).__name__, str(e)[:150]), rp)
+                continue
+            ctx.count("dvar:" + outcome)
+            ctx.count("dvar:order=" + order)
+            ctx.count("dvar:grid_sizes=" + gs_kind)
+            if "X" not in rec:
+                ctx.spec_fail("discrete_var_no_simulation", "discrete_var did not simulate the process", rp)
+                continue
+            X = rec["X"].T                       # rows = observations
+            sigma = np.sqrt(np.diagonal(solve_discrete_lyapunov(A, C @ C.T)))    # external (Lyapunov solve + sqrt)
+            # ---- spec: exact oracle from the parameters (Fractions): grids, nearest points, counts ----
+            if malformed == "IndexError":
+                if outcome != "IndexError":
+                    ctx.spec_fail("discrete_var_grid_sizes", "too few grid sizes accepted (%s)" % outcome, rp)
+            else:
+                szs = [10] * m if sizes is None else list(sizes)[:m]
+                gq = []
+                for i in range(m):
+                    ub = Fraction(std_eff) * Fraction(float(sigma[i]))
+                    gq.append([-ub] if szs[i] == 1 else [-ub + 2 * ub * j / (szs[i] - 1) for j in range(szs[i])])
+                Xq = [[Fraction(float(v)) for v in row] for row in X]
+                # a decision closer than 1e-9 (relative) to a tie (e.g. x0 = 0 on an even symmetric grid) depends on the
+                # rounding of the grid points: there the float rule on NumPy's own linspace decides (not /repo code)
+                override = {}
+                for t, row in enumerate(Xq):
+                    for d, (g, xi) in enumerate(zip(gq, row)):
+                        dist = sorted(abs(xi - v) for v in g)
+                        if len(dist) >= 2 and dist[1] - dist[0] <= Fraction(1, 10 ** 9) * (abs(g[0]) + 1):
+                            ubf = std_eff * float(sigma[d])
+                            gf = np.linspace(-ubf, ubf, szs[d])
+                            xf = float(X[t][d])
+                            if xf <= gf[0]:
+                                kk = 0
+                            elif xf >= gf[-1]:
+                                kk = len(gf) - 1
+                            else:
+                                kk = int(np.searchsorted(gf, xf))
+                                kk = kk if gf[kk] - xf < xf - gf[kk - 1] else kk - 1
+                            override[(t, d)] = kk
+                            ctx.count("dvar:near-tie-decided-by-float-rule")
+                if True:
+                    idx, st, pts, Cn, tot = oracle_fit(Xq, gq, order, override)
+                    valid = all(t > 0 for t in tot)
+                    if not valid:
+                        if outcome != "ValueError":
+                            ctx.spec_fail("discrete_var_unleft_state", "a state that is never left was accepted", rp)
+                    elif outcome != "ok":
+                        ctx.spec_fail("discrete_var_raises", "%s although every visited state is left" % outcome, rp)
+                    else:
+                        k = len(st)
+                        svf = sv.reshape(len(sv), -1)
+                        scale = max(float(abs(g[0])) for g in gq) + 1e-300
+                        if svf.shape != (k, m) or any(abs(Fraction(float(svf[a, b])) - pts[a][b]) > Fraction(1, 10 ** 12) * Fraction(scale)
+                                                         for a in range(k) for b in range(m)):
+                            ctx.spec_fail("discrete_var_states", "state values are not the visited nearest grid points of "
+                                          "linspace(-std_devs*sigma_i, std_devs*sigma_i, grid_sizes[i])", rp)
+                        elif P.shape != (k, k) or any(float(P[a, b]) != Cn[a][b] / tot[a] for a in range(k) for b in range(k)):
+                            ctx.spec_fail("discrete_var_P", "P is not the transition frequency matrix of the discretised path", rp)
+            # ---- correspondence: the model gets sigma_vector and the simulated path ----
+            def cmp_d(mo, im):
+                if mo.startswith("ERR:") or im.startswith("ERR:"):
+                    return None if mo == im else "outputs differ"
+                a = kvs(mo)
+                try:
+                    got = "states=%s P=%s" % (a["states"], model_P_bits(a["P"]))
+                except Exception:
+                    return "unparsable model output"
+                return None if got == im else "outputs differ (model canonicalised: %s)" % got[:200]
+
+            cases.append(Case("C13 dvar sigma=%s std=%s sizes=%s X=%s order=%s" % (fxs(sigma), fx(std_eff), sizes_tok, fxm(X), order),
+                              impl, nontrivial=(outcome == "ok" and len(np.atleast_1d(mc.P)) >= 2 if outcome == "ok" else False),
+                              cmp=cmp_d, tag="dvar"))
+    finally:
+        ap.simulate_linear_model = orig
+
+
+
 def run(ctx):
     warnings.simplefilter("ignore")
     ctx.rule = ("rouwenhorst/tauchen: n in 2..40, rho in (-0.99,0.99) incl. negative and near-boundary, sigma log-uniform in "
                 "(1e-3,1e2), mu incl. 0 and large, n_std 1..5, plus a dyadic stream (rho=k/4, sigma=2^e, n<=7) on which the "
                 "recursion is exact in double; estimate_mc: int / float / 2-d / 3-d sequences of length 2..200, mostly with "
                 "every state left at least once, some with a never-left last state (ValueError); fit_discrete_mc: 1..3 "
-                "dyadic grids, observations on grid / at midpoints (ties) / outside / generic, C and F order. "
+                "dyadic grids, observations on grid / at midpoints (ties) / outside / generic, C and F order; discrete_var: "
+                "m in 1..3, sim_length 1..200, grid_sizes None/list/array/tuple (also too short, zero, surplus), std_devs "
+                "given/omitted, rv given or seeded random_state, both orders, judged from sigma_vector and the recorded path. "
                 "Non-trivial: n>=3 (halving rows, interior cells) resp. at least two states; distinct by request line")
     ctx.assumptions += [
         "sqrt and erfc are external: the Float model uses IEEE sqrt, erfc is tabulated by the harness with math.erfc",
@@ -1159,6 +1326,7 @@ def run(ctx):
     estimate_cases(ctx, cases)
     fit_layout_probe(ctx)
     fit_cases(ctx, cases)
+    dvar_cases(ctx, cases)
     history_cases(ctx)
     scalar_form_probes(ctx)
     ctx.run_cases(cases)
